@@ -193,15 +193,16 @@ def maybeAccept (s : State) (b : BlockAbs) : State × Option Bool :=
         let n : Node := ⟨b, p.height + 1, p.workSum + b.work⟩
         connectBest { s with idx := n :: s.idx, st := (b.hash, { data := true, header := true }) :: s.st } n
 
-/-- `addOrphanBlock` without the wall-clock expiry -/
-def addOrphan (s : State) (b : BlockAbs) : State :=
+/-- `addOrphanBlock` without the wall-clock expiry, for a pool bound `bound` (`maxOrphanBlocks` is an
+internal tuning constant: the driver reads it from the tree, the theorems use the shipped value) -/
+def addOrphanB (bound : Nat) (s : State) (b : BlockAbs) : State :=
   let cand := s.orphans.foldl (fun (o : Option (Hash × Nat)) p =>
       match o with
       | none => some (p.1.hash, p.2)
       | some (h, t) => if p.2 < t then some (p.1.hash, p.2) else some (h, t)) s.oldest
   let s1 : State := { s with oldest := cand }
   let s2 : State :=
-    if s1.orphans.length + 1 > maxOrphans then
+    if s1.orphans.length + 1 > bound then
       match cand with
       | some (h, _) =>
         { s1 with orphans := s1.orphans.filter (fun p => p.1.hash != h),
@@ -210,6 +211,8 @@ def addOrphan (s : State) (b : BlockAbs) : State :=
       | none => s1
     else s1
   { s2 with orphans := s2.orphans ++ [(b, s2.clock)], clock := s2.clock + 1 }
+
+def addOrphan (s : State) (b : BlockAbs) : State := addOrphanB maxOrphans s b
 
 /-- accept the orphans of one parent in arrival order; collects the hashes accepted without error
 and whether any was rejected -/
@@ -463,6 +466,13 @@ def processBlockFast (s : State) (b : BlockAbs) : State × Res :=
         match drainFast (s1.orphans.length + 1) s1 [b.hash] false with
         | (s2, true) => (s2, .rej)
         | (s2, false) => (s2, if m then .main else .side)
+
+/-- `ProcessBlock` / `ProcessBlock(BFFastAdd)` for an arbitrary orphan-pool bound (driver only): the
+bound matters only on the branch that pools the block -/
+def processBlockB (bound : Nat) (fast : Bool) (s : State) (b : BlockAbs) : State × Res :=
+  if !(s.status b.hash).data && !(s.orphans.any (fun p => p.1.hash == b.hash)) && b.sane &&
+      !(s.status b.parent).data then (addOrphanB bound s b, .orphan)
+  else if fast then processBlockFast s b else processBlock s b
 
 /-! ### the machine -/
 
